@@ -607,6 +607,15 @@ func execVest(x *Exec, toks []string) string {
 		if res == "panic" {
 			x.hit("C20", "message-panics", toks[0], "handler or ValidateBasic panicked")
 		}
+		if res == "ok" {
+			// whatever denom was accepted, the module's queries must keep working with it
+			if r, _ := catch(func() error {
+				_, err := k.VestingsSummary(sdk.WrapSDKContext(x.ctx), &vesttypes.QueryVestingsSummaryRequest{})
+				return err
+			}); r == "panic" {
+				x.hit("C20", "query-panics", "VestingsSummary", "query panics after the accepted denom update to "+esc(after)+": "+lastNote(x))
+			}
+		}
 		return res + " denom=" + esc(after)
 	case "v.up.v2pool", "v.up.v1pool", "v.up.migrate3", "v.up.migrate2", "v.up.split", "v.up.traces", "v.up.accounts":
 		return execUpgrade(x, f, toks)
